@@ -17,6 +17,9 @@
 (*   get/gets/gat/gats [verb, keys, exptime (<<>> for get/gets), noreply]  *)
 (*   delete   [verb, key, noreply]      incr/decr [verb, key, delta, noreply]*)
 (*   touch    [verb, key, exptime, noreply]   flush_all [verb, delay, noreply]*)
+(*   stats    [verb, keys (the arguments), exptime <<>>, noreply FALSE]      *)
+(*   cache_memlimit [verb, limit, noreply]   version / quit [verb, noreply]  *)
+(*   shutdown [verb, graceful, noreply FALSE]                               *)
 (*   what a server would answer ERROR / CLIENT_ERROR to:                    *)
 (*            [verb |-> "PARSE-ERROR", why |-> ...]                         *)
 (* ProtoMC.tla checks with TLC, over a small byte alphabet, that the        *)
@@ -40,7 +43,11 @@ VB == [ set |-> <<115, 101, 116>>, add |-> <<97, 100, 100>>,
         get |-> <<103, 101, 116>>, gets |-> <<103, 101, 116, 115>>, gat |-> <<103, 97, 116>>,
         gats |-> <<103, 97, 116, 115>>, delete |-> <<100, 101, 108, 101, 116, 101>>,
         incr |-> <<105, 110, 99, 114>>, decr |-> <<100, 101, 99, 114>>, touch |-> <<116, 111, 117, 99, 104>>,
-        flush_all |-> <<102, 108, 117, 115, 104, 95, 97, 108, 108>> ]
+        flush_all |-> <<102, 108, 117, 115, 104, 95, 97, 108, 108>>,
+        stats |-> <<115, 116, 97, 116, 115>>, version |-> <<118, 101, 114, 115, 105, 111, 110>>, quit |-> <<113, 117, 105, 116>>,
+        cache_memlimit |-> <<99, 97, 99, 104, 101, 95, 109, 101, 109, 108, 105, 109, 105, 116>>,
+        shutdown |-> <<115, 104, 117, 116, 100, 111, 119, 110>> ]
+GracefulTok == <<103, 114, 97, 99, 101, 102, 117, 108>>
 NoreplyTok == <<110, 111, 114, 101, 112, 108, 121>>
 Verbs == DOMAIN VB
 StorageVerbs == {"set", "add", "replace", "append", "prepend", "cas"}
@@ -100,6 +107,10 @@ Render(c) ==
     [] c.verb \in {"incr", "decr"} -> Line(<<VB[c.verb], c.key, c.delta>> \o NR(c))
     [] c.verb = "touch" -> Line(<<VB.touch, c.key, c.exptime>> \o NR(c))
     [] c.verb = "flush_all" -> Line(<<VB.flush_all, c.delay>> \o NR(c))
+    [] c.verb = "stats" -> Line(<<VB.stats>> \o c.keys)
+    [] c.verb = "cache_memlimit" -> Line(<<VB.cache_memlimit, c.limit>> \o NR(c))
+    [] c.verb \in {"version", "quit"} -> Line(<<VB[c.verb]>>)
+    [] c.verb = "shutdown" -> Line(<<VB.shutdown>> \o (IF c.graceful THEN <<GracefulTok>> ELSE << >>))
 
 RECURSIVE RenderAll(_)
 RenderAll(cs) == IF cs = <<>> THEN <<>> ELSE Render(Head(cs)) \o RenderAll(Tail(cs))
@@ -165,6 +176,16 @@ ParseLine(toks) ==
              b == IF nr THEN SubSeq(a, 1, Len(a) - 1) ELSE a
          IN IF Len(b) > 1 \/ (b # <<>> /\ ~IsI64(b[1])) THEN Err("bad flush_all")
             ELSE [verb |-> v, delay |-> IF b = <<>> THEN <<48>> ELSE Canon(b[1]), noreply |-> nr]
+    [] v = "stats" -> [verb |-> v, keys |-> a, exptime |-> <<>>, noreply |-> FALSE]
+    [] v = "cache_memlimit" ->
+         LET t == Tail1(a, 1)
+         IN IF ~t[1] \/ ~IsU64(a[1]) THEN Err("bad cache_memlimit")
+            ELSE [verb |-> v, limit |-> Canon(a[1]), noreply |-> t[2]]
+    [] v \in {"version", "quit"} ->
+         IF a # <<>> THEN Err("trailing tokens") ELSE [verb |-> v, noreply |-> (v = "quit")]
+    [] v = "shutdown" ->
+         IF a \notin {<<>>, <<GracefulTok>>} THEN Err("bad shutdown")
+         ELSE [verb |-> v, graceful |-> a # <<>>, noreply |-> FALSE]
     [] OTHER -> Err("unknown command")
 
 (* [cmds |-> commands read so far, left |-> bytes that do not complete a command] *)
